@@ -576,11 +576,11 @@ genItem()
 		std::ostringstream o;
 		int k = *pbt::welem<int>({{8, 0}, {3, 1}, {3, 2}, {1, 3}, {3, 4}});
 		switch (k) {
-		case 0: o << "msg " << *gen::element(0, 1, 5, 125, 126, 127, 300, 4000, 65535, 65536, 70000) << " " << *pbt::welem<int>({{3, 1}, {2, 2}, {2, 3}, {1, 5}}) << " " << *pbt::range<int>(0, 15); break;
+		case 0: o << "msg " << *gen::element(0, 1, 5, 125, 126, 127, 300, 4000, 65534, 65535, 65536, 70000) << " " << *pbt::welem<int>({{3, 1}, {2, 2}, {2, 3}, {1, 5}}) << " " << *pbt::range<int>(0, 15); break;
 		case 1: o << "ctl " << *gen::element(9, 10) << " " << *gen::element(0, 1, 60, 125); break;
 		case 2: o << "bad " << *pbt::range<int>(0, NBAD - 1) << " " << *gen::element(0, 1, 7, 100, 125, 126, 2000, 66000); break;
 		case 3: o << "close"; break;
-		default: o << "appsend " << *gen::element(0, 1, 125, 126, 4000, 65536, 70000); break;
+		default: o << "appsend " << *gen::element(0, 1, 125, 126, 127, 4000, 65534, 65535, 65536, 70000); break;
 		}
 		return o.str();
 	});
@@ -592,7 +592,7 @@ gen_c16()
 	std::ostringstream t;
 	int mode = *pbt::welem<int>({{4, 0}, {2, 1}, {1, 2}});
 	t << "cfg " << *pbt::range<int>(1, 1000000) << " " << mode << " " << *gen::element(10, 30, 60) << " " << *pbt::range<int>(0, 3) << " 600 0\n";
-	t << "world " << *pbt::range<int>(0, 1) << " " << *gen::element(0, 0, 100, 1000, 70000) << " " << *gen::element(0, 0, 64, 5000) << " " << *gen::element(0, 0, 1, 100, 65536) << "\n";
+	t << "world " << *pbt::range<int>(0, 1) << " " << *gen::element(0, 0, 100, 1000, 70000) << " " << *gen::element(0, 0, 64, 5000) << " " << *gen::element(0, 0, 1, 100, 125, 126, 65535, 65536) << "\n";
 	t << "hs " << *pbt::welem<int>({{10, 0}, {1, 1}, {1, 2}, {1, 3}, {1, 4}, {1, 5}, {1, 6}, {1, 7}}) << "\n";
 	if (*pbt::welem<int>({{1, 0}, {4, 1}})) {
 		auto seg = *gen::container<std::vector<int>>(gen::element(1, 1, 2, 3, 5, 7, 16, 17, 60, 125, 126, 1000, 65536));
@@ -623,7 +623,7 @@ main(int argc, char **argv)
 	          "(request) / 5 (response) malformed variants, then sends generated frame streams: messages of 0..70000 bytes in 1-5 fragments with pings / pongs "
 	          "interleaved, control frames, and violations (reserved bit, reserved opcode, wrong masking for the role, non-minimal 16/64-bit lengths, 126+ byte "
 	          "control frame, continuation without start, data frame inside a message, frame above ws:rxframe-max, fragmented message above RECVMAXSZ), all "
-	          "written in generated segmentations (1-byte to 64 KiB chunks); the application also sends 0..70000-byte messages with ws:txframe-max 0/1/100/65536. "
+	          "written in generated segmentations (1-byte to 64 KiB chunks); the application also sends 0..70000-byte messages with ws:txframe-max 0/1/100/125/126/65535/65536. "
 	          "Oracle: reference model from RFC 6455 - exactly the valid complete messages before the first violation are delivered, byte-identical, never above "
 	          "RECVMAXSZ; after a violation nothing is delivered and nng sends Close or disconnects; bad upgrades get an HTTP error status (server) or no "
 	          "connection (client); every frame and header nng emits is well-formed (mask by role, minimal lengths, opcodes, accept key, pong echoes). "
